@@ -135,6 +135,16 @@ class World:
             time.sleep(0.01)
         time.sleep(0.05)
 
+    def killjob(self, j):
+        """the job process is killed from outside (SIGKILL, out of memory): it ends without removing its pid file"""
+        self.emit("h.jobend", job=j)
+        pidf = self.jobsroot / j / (j + ".pid")
+        try:
+            os.kill(json.loads(pidf.read_text())["pid"], signal.SIGKILL)
+        except Exception as e:
+            self.problems.append(f"could not kill job {j}: {e!r}")
+        time.sleep(0.1)
+
     def kill(self, p):
         self.emit("h.kill", p=p)
         self.procs[p].send_signal(signal.SIGKILL)
@@ -243,6 +253,36 @@ def sc_owner_dies_running():
     return w.close()
 
 
+def sc_orphan_killed():
+    """the scheduler dies while its job runs, then the job itself is killed (its pid file stays behind); a scheduler that
+    was there and one that starts afterwards both see the token come back"""
+    w = World(1, {"a": "p1", "b": "p2", "c": "p3"}, {"a": 1, "b": 1, "c": 1})
+    w.start("p1"); w.start("p2")
+    w.submit("a"); w.acquire("a"); w.startjob("a")
+    w.submit("b"); w.acquire("b")
+    w.kill("p1")
+    m = w.mark()
+    w.killjob("a")
+    w.told("b", m)
+    w.quiescent()
+    r = w.acquire("b")
+    if r and r.get("acquired"):
+        w.startjob("b")
+        w.kill("p2")
+        m = w.mark()
+        w.killjob("b")
+        w.start("p3")           # learns about the orphan's token file from the directory, after the job is gone
+        if w.procs["p3"].poll() is None:
+            w.submit("c")
+            w.wait_event(lambda r: r["e"] == "tok.file.delete" and r.get("job") == "b", 20, m)
+            w.quiescent()
+            r = w.acquire("c")
+            if r and r.get("acquired"):
+                w.release("c")
+    w.quiescent(0.3)
+    return w.close()
+
+
 def sc_dies_mid_create():
     """the scheduler is killed between the creation of the token file and its first write"""
     w = World(1, {"a": "p1", "b": "p2", "c": "p3"}, {"a": 1, "b": 1, "c": 1})
@@ -326,7 +366,7 @@ def sc_race_in_create():
     return w.close()
 
 
-SCENARIOS = {"race_in_create": sc_race_in_create, "contention": sc_contention, "halfwritten": sc_halfwritten, "owner_dies_running": sc_owner_dies_running,
+SCENARIOS = {"orphan_killed": sc_orphan_killed, "race_in_create": sc_race_in_create, "contention": sc_contention, "halfwritten": sc_halfwritten, "owner_dies_running": sc_owner_dies_running,
              "dies_mid_create": sc_dies_mid_create, "partial_returns": sc_partial_returns, "mixed": sc_mixed}
 
 if __name__ == "__main__":
